@@ -3,7 +3,7 @@ ALL = ["C%02d" % i for i in range(1, 37)]
 
 BASELINE_OFF = ("cd /repo && GOFLAGS=-mod=mod GOPROXY=off GOSUMDB=off GOTOOLCHAIN=local "
                 "go test -json -vet=off -count=1 -timeout 25m ./...")
-HOOK_COMMITS = []
+HOOK_COMMITS = ["d9bd3981", "91affb0d"]
 
 NOTES = ("Every check: TLC design check of the TLA+ module, then TLC-generated behaviours replayed against /repo's "
          "working tree (harness rebuilt on every run with -tags verif) and/or recorded traces validated by TLC. "
@@ -19,6 +19,26 @@ _MC = ("TLC explores the bounded %s specification exhaustively (design check of 
        "real bio-rd objects with the complete projected state compared after each step")
 
 CHECKS = {
+    "C34": {
+        "text": "ApiConv defines ApiFields(p) (what the API schema carries; nil and empty lists identified) over records of field classes; "
+                "TLC enumerates every record within 2 field changes of the base plus seeded random records; each goes through the real "
+                "Route.ToProto -> RouteFromProtoRoute (with/without dedup, IPv4/IPv6) and must reproduce ApiFields(p); a hidden path must "
+                "carry a hidden reason in the API.",
+        "note": "Trusted: TLC, the adapter's build/classify pair for list contents. One known finding (hidden reason 7 has no API enum value; "
+                "repair needs protoc).",
+        "technique": "TLA+ spec ApiConv enumerated by TLC; per-record replay against route.ToProto / RouteFromProtoRoute",
+    },
+    "C36": {
+        "text": "Reload models the configured sessions as Effective(cfg) (groups, neighbours, inheritance) with the action Reload(v): "
+                "sessions' = Effective(v); TLC checks HistoryFree / OneSessionPerPeer / RemovedAreGone and emits every ordered pair of 27 "
+                "configurations plus random sequences of 5. Each behaviour is loaded through the real reload path (config.GetConfig + "
+                "loadConfig + bgpConfigurator against a bgpServer with in-memory listeners) of a hooked bio-rd binary; after every reload "
+                "the peers' effective settings, stored PeerConfig and chains must equal Effective(v). Effective itself is first checked "
+                "against a real fresh start (a disagreement is a harness error, exit 2).",
+        "note": "Trusted: the verif-tagged entry point in cmd/bio-rd and the read-only accessor in protocols/bgp/server; YAML rendering in the "
+                "adapter; quick tier samples the pairs not involving the base configuration. Sessions are not established during the check.",
+        "technique": "TLA+ spec Reload + TLC; behaviour replay through the hooked bio-rd binary's real reload path",
+    },
     "C08": {
         "text": _MC % "RibOut" + " (invariant OutIsExportView: per prefix the Adj-RIB-Out holds the export, with the session's rewrites, "
                 "of the first N paths of the Loc-RIB selection that export rules and export policy admit; empty while the session is "
